@@ -234,6 +234,10 @@ def main():
                         broken.append({"kind": "scenario-crash", "what": "%s exited with %d: %s" % (s["name"], rc, err)})
                 if not lines or any(re.search(r" summary runs=0( |$)", l) for l in lines):
                     broken.append({"kind": "scenario-empty", "what": s["name"] + " executed no run"})
+                # a scenario whose every run ended in a harness error (" err=…", " infra=…") compared nothing
+                runl = [l for l in lines if " run=" in l and " summary " not in l]
+                if len(runl) >= 3 and all((" err=" in l or " infra=" in l) and " VIOL" not in l for l in runl):
+                    broken.append({"kind": "scenario-inconclusive", "what": "%s: every run ended in a harness error, e.g. %s" % (s["name"], runl[0][-200:])})
                 continue
             gen, go, lean, stats = stream_cmds(s, prop, seed, tier, workdir)
             st = lib.run_stream(s["name"], gen, go, lean, workdir)
